@@ -86,6 +86,9 @@ package resolve
 //@ func RateLimiter.RateLimitPreFetch
 //@   modifies global(ext)
 //@   trusted interface method, implementations are outside package resolve
+//@ func Authorizer.HasResponseExtensionData
+//@   modifies global(ext)
+//@   trusted interface method, implementations are outside package resolve
 //@ spec depsOf(f Fetch) *FetchDependencies
 //@ func Fetch.Dependencies
 //@   ensures result == depsOf(recv)
@@ -483,7 +486,7 @@ package resolve
 //@   ensures {stack.restored} len(r.path) == old(len(r.path))
 //@   assumes !raw(arr(quote)) && (forall k in 0..len(r.renameTypeNames) :: !raw(arr(r.renameTypeNames[k].To)))
 //@   at call Resolvable.printBytes: assert {unescaped.string.content.is.never.printed.raw} !raw(arr(arg1))
-//@   modifies *, count(*)
+//@   modifies *, count(*), nocount(hasNext), nocount(completedEntry), nocount(pendingList)
 
 //@ func Resolvable.walkBoolean
 //@   requires r != nil
@@ -496,7 +499,7 @@ package resolve
 //@   ensures {right.kind.accepted} !isnull && kindok ==> !result
 //@   ensures {mode.unchanged} modeSame(r)
 //@   ensures {stack.restored} len(r.path) == old(len(r.path))
-//@   modifies *, count(*)
+//@   modifies *, count(*), nocount(hasNext), nocount(completedEntry), nocount(pendingList)
 
 //@ func Resolvable.walkInteger
 //@   requires r != nil
@@ -511,7 +514,7 @@ package resolve
 //@   ensures {non.integral.number.rejected} !isnull && kindok && !integral ==> result
 //@   ensures {mode.unchanged} modeSame(r)
 //@   ensures {stack.restored} len(r.path) == old(len(r.path))
-//@   modifies *, count(*)
+//@   modifies *, count(*), nocount(hasNext), nocount(completedEntry), nocount(pendingList)
 
 // walkFloat checks the kind in the pre-walk only; the render walk runs on validated data
 //@ func Resolvable.walkFloat
@@ -526,7 +529,7 @@ package resolve
 //@   ensures {right.kind.accepted} !isnull && kindok ==> !result
 //@   ensures {mode.unchanged} modeSame(r)
 //@   ensures {stack.restored} len(r.path) == old(len(r.path))
-//@   modifies *, count(*)
+//@   modifies *, count(*), nocount(hasNext), nocount(completedEntry), nocount(pendingList)
 
 //@ func Resolvable.walkBigInt
 //@   requires r != nil
@@ -537,7 +540,7 @@ package resolve
 //@   ensures {any.value.accepted} !isnull ==> !result
 //@   ensures {mode.unchanged} modeSame(r)
 //@   ensures {stack.restored} len(r.path) == old(len(r.path))
-//@   modifies *, count(*)
+//@   modifies *, count(*), nocount(hasNext), nocount(completedEntry), nocount(pendingList)
 
 //@ func Resolvable.walkScalar
 //@   requires r != nil
@@ -548,7 +551,7 @@ package resolve
 //@   ensures {any.value.accepted} !isnull ==> !result
 //@   ensures {mode.unchanged} modeSame(r)
 //@   ensures {stack.restored} len(r.path) == old(len(r.path))
-//@   modifies *, count(*)
+//@   modifies *, count(*), nocount(hasNext), nocount(completedEntry), nocount(pendingList)
 
 //@ func Resolvable.walkEnum
 //@   requires r != nil
@@ -560,7 +563,7 @@ package resolve
 //@   ensures {wrong.kind.rejected} !isnull && !kindok ==> result
 //@   ensures {mode.unchanged} modeSame(r)
 //@   ensures {stack.restored} len(r.path) == old(len(r.path))
-//@   modifies *, count(*)
+//@   modifies *, count(*), nocount(hasNext), nocount(completedEntry), nocount(pendingList)
 
 //@ func Resolvable.walkCustom
 //@   requires r != nil
@@ -570,7 +573,7 @@ package resolve
 //@   ensures {null.bubbles.iff.nonnull} isnull ==> (result <==> !nullable)
 //@   ensures {mode.unchanged} modeSame(r)
 //@   ensures {stack.restored} len(r.path) == old(len(r.path))
-//@   modifies *, count(*)
+//@   modifies *, count(*), nocount(hasNext), nocount(completedEntry), nocount(pendingList)
 
 //@ func Resolvable.walkStaticString
 //@   requires r != nil
@@ -594,19 +597,19 @@ package resolve
 //@   requires r != nil
 //@   ensures {mode.unchanged} modeSame(r)
 //@   ensures {stack.restored} len(r.path) == old(len(r.path))
-//@   modifies *, count(*)
+//@   modifies *, count(*), nocount(hasNext), nocount(completedEntry), nocount(pendingList)
 
 //@ func Resolvable.walkUnreachedItem
 //@   requires r != nil
 //@   ensures {mode.unchanged} modeSame(r)
 //@   ensures {stack.restored} len(r.path) == old(len(r.path))
-//@   modifies *, count(*)
+//@   modifies *, count(*), nocount(hasNext), nocount(completedEntry), nocount(pendingList)
 
 //@ func Resolvable.walkUnreachedFields
 //@   requires r != nil
 //@   ensures {mode.unchanged} modeSame(r)
 //@   ensures {stack.restored} len(r.path) == old(len(r.path))
-//@   modifies *, count(*)
+//@   modifies *, count(*), nocount(hasNext), nocount(completedEntry), nocount(pendingList)
 //@   loop 0:
 //@     invariant len(r.path) == old(len(r.path)) && modeSame(r)
 
@@ -615,7 +618,7 @@ package resolve
 //@   assumes r.authorization != nil
 //@   ensures {mode.unchanged} modeSame(r)
 //@   ensures {stack.restored} len(r.path) == old(len(r.path))
-//@   modifies *, count(*)
+//@   modifies *, count(*), nocount(hasNext), nocount(completedEntry), nocount(pendingList)
 
 //@ func Resolvable.addRejectFieldError
 //@   requires r != nil
@@ -660,7 +663,7 @@ package resolve
 //@   at call Resolvable.addError: assert {error.path.is.the.response.path} len(r.path) + len(arg2) == old(len(r.path)) + len(obj.Path)
 //@   ensures {mode.unchanged} modeSame(r)
 //@   ensures {stack.restored} len(r.path) == old(len(r.path))
-//@   modifies *, count(*)
+//@   modifies *, count(*), nocount(hasNext), nocount(completedEntry), nocount(pendingList)
 
 // walkArray: callee preconditions of astjson (SetNull needs a non-empty path), null bubbling guards,
 // path stack restored on every path
@@ -684,7 +687,7 @@ package resolve
 //@   ensures {prewalk.visits.every.item} !rend && !result && g_isArray && !g_listNulled ==> g_n >= 0 && g_walks == g_n
 //@   ensures {mode.unchanged} modeSame(r)
 //@   ensures {stack.restored} len(r.path) == old(len(r.path))
-//@   modifies *, count(*)
+//@   modifies *, count(*), nocount(hasNext), nocount(completedEntry), nocount(pendingList)
 //@   loop 0:
 //@     invariant len(r.path) == old(len(r.path)) + len(arr.Path)
 //@     invariant modeSame(r) && rendering(r) == rend && g_isArray && g_n == len(values) && !g_listNulled && g_walks == 0
@@ -708,7 +711,7 @@ package resolve
 //@   at call printBytes: assert {denied.field.not.printed} !g_denied
 //@   ensures {mode.unchanged} modeSame(r)
 //@   ensures {stack.restored} len(r.path) == old(len(r.path))
-//@   modifies *, count(*)
+//@   modifies *, count(*), nocount(hasNext), nocount(completedEntry), nocount(pendingList)
 //@   loop 0:
 //@     invariant len(r.path) == old(len(r.path)) && modeSame(r)
 //@     invariant {denied.field.handled.before.next.field} !g_pendingDeny
@@ -721,7 +724,7 @@ package resolve
 //@   ghost var g_decidedDeny bool = false
 //@   at call FieldAuthorization.decide: ghost g_decidedDeny = result0 != nil || result1 != nil
 //@   ensures {deny.decision.skips.field} g_decidedDeny ==> result
-//@   modifies *, count(*)
+//@   modifies *, count(*), nocount(hasNext), nocount(completedEntry), nocount(pendingList)
 
 //@ func Resolvable.shouldSkipFieldByTypeCondition
 //@   pure
@@ -924,8 +927,24 @@ package resolve
 //@ decl stable Context.preFetchFieldAuthorizer by Context.SetPreFetchFieldAuthorizer, Context.Free, Context.clone
 
 //@ func Resolver.resolveDeferSingle
-//@   requires r != nil && dc != nil && ctx != nil && dc.db != nil && !held(dc.db.mu)
+//@   requires r != nil && dc != nil && ctx != nil && dc.db != nil && !held(dc.db.mu) && dc.resolvable != nil && group != nil && outstanding != nil
 //@   requires {deferred.loaders.share.decisions} ctx.preFetchFieldAuthorizer != nil ==> dc.authorization != nil
+//@   assumes {plan.descriptor.ids.are.their.keys} forall k :: has(dc.resolvable.deferDescriptors, k) ==> dc.resolvable.deferDescriptors[k].ID == k
+//@   assumes {plan.every.group.has.a.descriptor} has(dc.resolvable.deferDescriptors, group.DeferID)
+//@   ghost var g_live map[int]DeferDescriptor = nil
+//@   ghost var g_batch bool = false
+//@   at call Resolvable.ResolveDeferBatch: assert {frame.rendered.under.the.data.lock} held(dc.db.mu) && arg3 == outstanding && arg2 == dc.writer
+//@   at call Resolvable.ResolveDeferBatch: assert {renders.the.scheduled.defer} dc.resolvable.currentDefer != nil && dc.resolvable.currentDefer.ID == group.DeferID
+//@   at call Resolvable.ResolveDeferBatch: ghost g_live = result0
+//@   at call Resolvable.ResolveDeferBatch: ghost g_batch = true
+//@   at call Resolvable.ResolveDeferError: assert {error.frame.rendered.under.the.data.lock} held(dc.db.mu) && arg3 == outstanding && arg1 == dc.writer
+//@   at call Resolvable.ResolveDeferError: assert {completes.the.scheduled.defer} dc.resolvable.currentDefer != nil && dc.resolvable.currentDefer.ID == group.DeferID
+//@   at call DeferResponseWriter.Flush: assert {frame.flushed.inside.the.same.critical.section} held(dc.db.mu)
+//@   ensures {each.scheduled.defer.completes.exactly.once} count(completedEntry) == old(count(completedEntry)) + 1
+//@   ensures {one.frame.one.hasNext} count(hasNext) == old(count(hasNext)) + 1
+//@   ensures {returns.the.announced.children} result1 == nil && g_batch ==> result0 == g_live
+//@   ensures {error.frames.announce.nothing} !g_batch ==> result0 == nil && count(pendingList) == old(count(pendingList))
+//@   ensures {lock.released} !held(dc.db.mu)
 //@   modifies *, count(*)
 //@   safety lockbalance-off
 //@ decl stable deferContext.db
@@ -1395,3 +1414,207 @@ package resolve
 //@   ensures {leader.publishes.its.bytes} g_used && !g_shared && result == nil ==> g_item.response == res.out && g_item.err == nil
 //@   ensures {leader.publishes.its.error} g_used && !g_shared && result != nil ==> g_item.err == result
 //@   modifies *, count(sent), count(sfLookup), count(putUint64), allof(SingleFlightItem.leaderPerm)
+
+// ----------------------------------------------------------------------------------------------
+// C10: incremental delivery protocol. Events: pendingList (a "pending" announcement of a set of
+// descriptors), completedEntry (a "completed" entry for the current defer), hasNext (the hasNext field
+// of a frame). The counter *outstanding is announced-but-not-completed; every frame's hasNext is
+// (*outstanding != 0) after the frame's own adjustment; a frame is rendered and flushed inside one
+// critical section of the data buffer lock.
+//@ decl stable Resolvable.currentDefer by Resolvable.Reset, Resolver.resolveDeferSingle, Resolver.ResolveGraphQLDeferResponse
+//@ decl stable Resolvable.deferDescriptors by Resolvable.Reset, Resolver.ResolveGraphQLDeferResponse
+//@ decl stable Resolvable.deferMode by Resolvable.Reset, Resolvable.ResolveDeferBatch, Resolver.ResolveGraphQLDeferResponse
+//@ decl stablemaps map[int]DeferDescriptor
+//@ decl stable DeferFetchGroup.DeferID
+//@ decl stable DeferFetchGroup.Fetches
+//@ decl stable DeferTreeNode.Kind
+//@ decl stable DeferTreeNode.Item
+//@ decl stable DeferTreeNode.ChildNodes
+//@ decl stableelems *DeferTreeNode
+//@ func GraphQLVariableResolveRenderer.RenderVariable
+//@   modifies global(ext), global(jver), count(ioWrite), count(printed), count(errorAdded)
+//@   trusted renders through a private Resolvable taken from a sync.Pool and Reset before it is returned; the pool never hands out a Resolvable that is in use elsewhere, so no Resolvable reachable by a caller is touched
+//@ decl stablecells int64 by Resolvable.ResolveDeferBatch, Resolvable.ResolveDeferError
+
+//@ func Resolvable.printHasNext
+//@   requires r != nil
+//@   ghost var g_n int = 0
+//@   ghost var g_last int = 0
+//@   at call Resolvable.printBytes: ghost g_n = g_n + 1
+//@   at call Resolvable.printBytes: ghost g_last = arr(arg1)
+//@   ensures {prints.the.flag} old(r.printErr == nil) ==> g_n == 6 && g_last == ite(hasNext, arr(literalTrue), arr(literalFalse))
+//@   ensures {silent.after.a.print.error} old(r.printErr != nil) ==> g_n == 0
+//@   modifies r.printErr, global(ext), count(printed), count(ioWrite)
+//@   emits hasNext
+
+//@ func Resolvable.renderCompleted
+//@   requires r != nil && r.currentDefer != nil
+//@   modifies r.printErr, r.marshalBuf, elems(r.marshalBuf), global(ext), count(printed), count(ioWrite)
+//@   emits completedEntry
+
+//@ func Resolvable.printPathArray
+//@   requires r != nil
+//@   modifies r.printErr, global(ext), count(printed), count(ioWrite)
+
+//@ func Resolvable.printPendingEntries
+//@   requires r != nil
+//@   modifies r.printErr, global(ext), count(printed), count(ioWrite)
+//@   emits pendingList when len(descriptors) > 0
+//@   trusted prints one pending entry per descriptor of the map, sorted by id (sort.Ints and map iteration order are outside the modelled subset)
+
+//@ func Resolvable.deferAnchorAlive
+//@   requires r != nil
+//@   pure
+
+//@ func Resolvable.liveChildDescriptors
+//@   requires r != nil
+//@   ensures {only.direct.children.of.the.parent} forall id :: has(result, id) ==> has(r.deferDescriptors, id) && r.deferDescriptors[id].ParentID == parentID && result[id] == r.deferDescriptors[id]
+//@   ensures {fresh.or.nil} result == nil || fresh(result)
+//@   modifies global(ext)
+//@   loop 0:
+//@     invariant live == nil || fresh(live)
+//@     invariant forall id :: has(live, id) ==> has(r.deferDescriptors, id) && r.deferDescriptors[id].ParentID == parentID && live[id] == r.deferDescriptors[id]
+
+//@ func Resolvable.ResolveDeferBatch
+//@   requires r != nil && outstanding != nil && r.currentDefer != nil
+//@   assumes {protocol.invariant.the.current.defer.is.counted.as.outstanding} *outstanding >= 1 && *outstanding < 0x4000000000000000
+//@   let o0 = *outstanding
+//@   let cd = r.currentDefer
+//@   ghost var g_hn bool = false
+//@   ghost var g_live map[int]DeferDescriptor = nil
+//@   ghost var g_pend map[int]DeferDescriptor = nil
+//@   at call Resolvable.liveChildDescriptors: assert {children.of.the.current.defer} arg1 == cd.ID && r.currentDefer == cd
+//@   at call Resolvable.liveChildDescriptors: ghost g_live = result
+//@   at call Resolvable.printPendingEntries: ghost g_pend = arg1
+//@   at call Resolvable.printHasNext: ghost g_hn = arg1
+//@   at call Resolvable.renderCompleted: assert {completes.the.current.defer} r.currentDefer == cd
+//@   ensures {counter.announces.children.and.completes.self} *outstanding == o0 + len(result0) - 1
+//@   ensures {hasNext.iff.something.outstanding} g_hn == (*outstanding != 0)
+//@   ensures {exactly.one.completed.entry} count(completedEntry) == old(count(completedEntry)) + 1
+//@   ensures {exactly.one.hasNext} count(hasNext) == old(count(hasNext)) + 1
+//@   ensures {announces.exactly.the.returned.children} g_pend == result0 && result0 == g_live && count(pendingList) == old(count(pendingList)) + ite(len(result0) > 0, 1, 0)
+//@   modifies *, count(*)
+
+//@ func Resolvable.ResolveDeferError
+//@   requires r != nil && outstanding != nil && r.currentDefer != nil
+//@   assumes {protocol.invariant.the.current.defer.is.counted.as.outstanding} *outstanding >= 1
+//@   let o0 = *outstanding
+//@   ghost var g_hn bool = false
+//@   at call Resolvable.printHasNext: ghost g_hn = arg1
+//@   ensures {counter.completes.self} *outstanding == o0 - 1
+//@   ensures {hasNext.iff.something.outstanding} g_hn == (*outstanding != 0)
+//@   ensures {exactly.one.completed.entry} count(completedEntry) == old(count(completedEntry)) + 1
+//@   ensures {exactly.one.hasNext} count(hasNext) == old(count(hasNext)) + 1
+//@   ensures {announces.nothing} count(pendingList) == old(count(pendingList))
+//@   modifies *, count(*)
+
+//@ func NewResolvable
+//@   ensures {fresh.resolvable} result != nil && fresh(result) && !result.deferMode && result.currentDefer == nil
+//@   fresh
+//@ func Resolvable.Resolve
+//@   requires r != nil
+//@   let dm = r.deferMode
+//@   ghost var g_live map[int]DeferDescriptor = nil
+//@   at call Resolvable.liveChildDescriptors: assert {top.level.defers.are.announced.in.the.initial.frame} arg1 == 0
+//@   at call Resolvable.liveChildDescriptors: ghost g_live = result
+//@   at call Resolvable.printPendingEntries: assert {announces.exactly.the.live.top.level.defers} arg1 == g_live && dm
+//@   at call Resolvable.printHasNext: assert {hasNext.iff.something.pending} arg1 == (len(g_live) > 0) && dm
+//@   ensures {no.incremental.fields.outside.defer.mode} !dm ==> count(hasNext) == old(count(hasNext)) && count(pendingList) == old(count(pendingList))
+//@   ensures {initial.frame.has.one.hasNext} dm && !old(r.ctx.ExecutionOptions.SkipLoader) && result == nil ==> count(hasNext) == old(count(hasNext)) + 1
+//@   ensures {initial.frame.completes.nothing} count(completedEntry) == old(count(completedEntry))
+//@   modifies *, count(*), nocount(completedEntry)
+//@ func Resolvable.printData
+//@   requires r != nil
+//@   modifies *, count(*), nocount(hasNext), nocount(completedEntry), nocount(pendingList)
+//@ func Resolvable.printExtensions
+//@   modifies *, count(*), nocount(hasNext), nocount(completedEntry), nocount(pendingList)
+//@   trusted prints the extensions object through user-supplied authorizer / rate limiter / tracing hooks, which cannot reach the incremental-delivery printers (unexported methods of Resolvable)
+//@ func Resolvable.printErrors
+//@   requires r != nil
+//@   modifies *, count(*), nocount(hasNext), nocount(completedEntry), nocount(pendingList)
+
+//@ func DeferResponseWriter.Flush
+//@   modifies global(ext)
+//@   emits flushed
+//@   trusted interface method (client connection)
+//@ func DeferResponseWriter.Complete
+//@   modifies global(ext)
+//@   emits streamCompleted
+//@   trusted interface method (client connection)
+
+// The execution tree: topOf/hasTop name the root defer of a Single or Sequence subtree (the plan tree is
+// immutable at execution time: stable decls above).
+//@ spec topOf(n *DeferTreeNode) int
+//@ spec hasTop(n *DeferTreeNode) bool
+//@ func topDeferID
+//@   defines {names.the.root.defer} result1 == hasTop(node) && (result1 ==> result0 == topOf(node))
+//@   ensures {single} node != nil && node.Kind == DeferTreeNodeKindSingle ==> hasTop(node) == (node.Item != nil) && (node.Item != nil ==> topOf(node) == node.Item.DeferID)
+//@   ensures {sequence.root.is.its.first.child} node != nil && node.Kind == DeferTreeNodeKindSequence && len(node.ChildNodes) > 0 ==> hasTop(node) == hasTop(node.ChildNodes[0]) && (hasTop(node) ==> topOf(node) == topOf(node.ChildNodes[0]))
+//@   ensures {parallel.has.no.single.root} node == nil || node.Kind == DeferTreeNodeKindParallel ==> !hasTop(node)
+//@   pure
+
+//@ spec liveNode(n *DeferTreeNode, live map[int]DeferDescriptor) bool = n != nil && (n.Kind == DeferTreeNodeKindParallel || (hasTop(n) && has(live, topOf(n))))
+//@ func pruneDeadDefers
+//@   ensures {single.or.sequence.kept.iff.its.root.is.live} node != nil && node.Kind != DeferTreeNodeKindParallel ==> (result == node || result == nil) && (result != nil <==> hasTop(node) && has(liveTop, topOf(node)))
+//@   ensures {nil.stays.nil} node == nil ==> result == nil
+//@   ensures {parallel.keeps.only.live.children} node != nil && node.Kind == DeferTreeNodeKindParallel && result != nil ==> fresh(result) && result.Kind == DeferTreeNodeKindParallel && len(result.ChildNodes) > 0 && (forall k in 0..len(result.ChildNodes) :: liveNode(result.ChildNodes[k], liveTop))
+//@   ensures {result.is.live} result != nil ==> liveNode(result, liveTop)
+//@   fresh
+//@   loop 0:
+//@     invariant fresh(kept)
+//@     invariant forall k in 0..len(kept) :: liveNode(kept[k], liveTop)
+
+//@ spec treeShape(n *DeferTreeNode) bool = (n.Kind == DeferTreeNodeKindSingle ==> n.Item != nil) && (n.Kind == DeferTreeNodeKindSequence ==> len(n.ChildNodes) >= 1 && n.ChildNodes[0] != nil && n.ChildNodes[0].Item != nil)
+//@ func Resolver.resolveDeferTree
+//@   requires r != nil && dc != nil && ctx != nil && dc.db != nil && !held(dc.db.mu) && dc.resolvable != nil && node != nil && outstanding != nil
+//@   requires {deferred.loaders.share.decisions} ctx.preFetchFieldAuthorizer != nil ==> dc.authorization != nil
+//@   assumes {plan.tree.shape.buildChain} treeShape(node)
+//@   ghost var g_live map[int]DeferDescriptor = nil
+//@   ghost var g_pruned *DeferTreeNode = nil
+//@   ghost var g_parent bool = false
+//@   at call Resolver.resolveDeferSingle: assert {single.resolves.its.group.sequence.its.parent} (node.Kind == DeferTreeNodeKindSingle && arg3 == node.Item) || (node.Kind == DeferTreeNodeKindSequence && arg3 == node.ChildNodes[0].Item && !g_parent)
+//@   at call Resolver.resolveDeferSingle: assert {same.counter} arg4 == outstanding && arg1 == dc
+//@   at call Resolver.resolveDeferSingle: ghost g_live = result0
+//@   at call Resolver.resolveDeferSingle: ghost g_parent = true
+//@   at call pruneDeadDefers: assert {children.pruned.by.what.the.parent.announced} g_parent && arg1 == g_live
+//@   at call pruneDeadDefers: ghost g_pruned = result
+//@   at call Resolver.resolveDeferTree: assert {only.live.subtrees.are.scheduled} arg3 == g_pruned && g_pruned != nil && arg4 == outstanding && arg1 == dc
+//@   ensures {lock.released} !held(dc.db.mu)
+//@   modifies *, count(*)
+//@   safety lockbalance-off
+//@   loop 0:
+//@     invariant !held(dc.db.mu) && g_parent
+
+// the goroutine body of the Parallel case (started by errgroup.Group.Go): environment facts it starts with are
+// assumptions (its creator holds no lock when it calls Go; the tree is well shaped)
+//@ func Resolver.resolveDeferTree$1
+//@   assumes {started.by.resolveDeferTree.parallel.case} r != nil && dc != nil && ctx != nil && dc.db != nil && !held(dc.db.mu) && dc.resolvable != nil && child != nil && outstanding != nil && (ctx.preFetchFieldAuthorizer != nil ==> dc.authorization != nil)
+//@   at call Resolver.resolveDeferTree: assert {each.branch.resolves.its.own.subtree.with.the.shared.counter} arg3 == child && arg4 == outstanding && arg1 == dc && arg2 == ctx
+//@   modifies *, count(*)
+//@   safety lockbalance-off
+
+//@ func Resolver.ResolveGraphQLDeferResponse
+//@   requires r != nil && ctx != nil && response != nil && response.Response != nil
+//@   assumes response.Response.Info != nil
+//@   ghost var g_liveTop map[int]DeferDescriptor = nil
+//@   ghost var g_tree *DeferTreeNode = nil
+//@   ghost var g_flushed bool = false
+//@   ghost var g_initial bool = false
+//@   at call Resolvable.Resolve: assert {initial.frame.rendered.in.defer.mode.with.the.plan.descriptors} arg0.deferMode && arg0.currentDefer == nil && arg0.deferDescriptors == response.DeferDescriptors && !g_flushed && arg4 == writer
+//@   at call Resolvable.Resolve: ghost g_initial = true
+//@   at call DeferResponseWriter.Flush: assert {initial.frame.flushed.before.any.deferred.work} g_initial && !g_flushed
+//@   at call DeferResponseWriter.Flush: ghost g_flushed = result == nil
+//@   at call Resolvable.liveChildDescriptors: assert {top.level.defers} arg1 == 0 && g_flushed
+//@   at call Resolvable.liveChildDescriptors: ghost g_liveTop = result
+//@   at call pruneDeadDefers: assert {tree.pruned.by.the.live.top.level.defers} arg0 == response.DeferTree && arg1 == g_liveTop
+//@   at call pruneDeadDefers: ghost g_tree = result
+//@   at call Resolver.resolveDeferTree: assert {outstanding.starts.at.the.number.of.announced.defers} *arg4 == len(g_liveTop) && arg3 == g_tree && g_flushed
+//@   ensures {stream.terminates.on.every.exit.after.the.first.flush} g_flushed ==> count(streamCompleted) == old(count(streamCompleted)) + 1
+//@   ensures {nothing.completed.before.the.initial.frame} !g_flushed ==> count(streamCompleted) == old(count(streamCompleted)) && count(completedEntry) == old(count(completedEntry))
+//@   modifies *, count(*)
+//@   safety lockbalance-off
+
+// the deferred stream terminator registered after the initial frame was flushed
+//@ func Resolver.ResolveGraphQLDeferResponse$2
+//@   ensures {terminates.the.stream.once} count(streamCompleted) == old(count(streamCompleted)) + 1
+//@   modifies global(ext), count(streamCompleted)
